@@ -89,6 +89,8 @@ Qed.
 
 Theorem C19_bit : C19_bit_statement.
 Proof.
-  intros byte bit trailing H. split; [reflexivity|].
-  unfold bit_next. destruct (bit =? 7) eqn:E; lia.
+  intros byte bit trailing H. split; [reflexivity|]. split.
+  - unfold bit_next. destruct (bit =? 7) eqn:E; lia.
+  - intros Hb. cbn [pack]. replace ((0 <=? Z.of_N byte)%Z && (Z.of_N byte <? 256)%Z) with true by lia.
+    now rewrite N2Z.id.
 Qed.
